@@ -113,6 +113,18 @@ def declares_default(schema, depth=0, opts=None, base=None):
     return False
 
 
+def governing_schema(schema, key):
+    """The schema that applies to member ``key`` for the purpose of the default waiver: its
+    ``properties`` entry, else (if no patternProperties regex matches) ``additionalProperties``."""
+    props = schema.get("properties", {})
+    if key in props:
+        return props[key]
+    if any(re.search(p, key) for p in schema.get("patternProperties", {})):
+        return None
+    extra = schema.get("additionalProperties")
+    return extra if isinstance(extra, dict) else None
+
+
 def resolve_ref(ref, base, opts):
     """Resolve '#/a/b' or 'file.json#/a/b' against opts.store."""
     if "#" in ref:
@@ -229,7 +241,7 @@ def validate(schema, value, opts=None, trace=None, base=None, _depth=0):
             if not missing:
                 note("required", T)
             elif opts.waiver and all(
-                k in props and declares_default(props[k], 0, opts, base) for k in missing
+                declares_default(governing_schema(s, k), 0, opts, base) for k in missing
             ):
                 note("required", E)
             else:
